@@ -100,6 +100,7 @@ class Sim:
         self.events = []
         self.event_times = []
         self.own_sends = 0
+        self.cb_loop_iters = []         # event-loop iteration in which each receive callback started
         self.raw_writes = []            # (connection, bytes, send id or '-') of every write, whatever it is
         self.expected_packets = {}      # send id -> packets a fresh encoder produces for that message (None: it refuses)
         self.close_raised = []
@@ -226,6 +227,7 @@ class Sim:
         async def recv_cb(m):
             sim.cb_log.append(m)
             sim.emit(f"cb {len(sim.cb_log)}")
+            sim.cb_loop_iters.append(asyncio.get_event_loop().iterations)
             k = next((i + 1 for i, x in enumerate(sim.put_log) if x is m), 0)
             sim.qevents.append(f"cbStart_{k}")
             try:
